@@ -22,15 +22,16 @@ type Roles struct {
 	Encoders      []*types.Named
 	Lifecycles    []*types.Named
 
-	EntryPoints []*ssa.Function // exported funcs(ctx, ...) that reach the recorder
-	Recorder    *ssa.Function   // the function that obtains a pooled event and calls Logger.Append
-	Enable      *ssa.Function   // LevelRange.Enable
-	Worker      *ssa.Function   // async worker closure
-	WorkerOwner *types.Named    // the async logger type
-	BufField    *types.Var      // channel field the worker receives from
-	Retention   *ssa.Function   // function containing os.Remove*
-	Rotation    *ssa.Function   // rotation step of the rolling appender
-	HotPath     map[*ssa.Function]bool
+	EntryPoints    []*ssa.Function // exported funcs(ctx, ...) that reach the recorder
+	Recorder       *ssa.Function   // the function that obtains a pooled event and calls Logger.Append
+	Enable         *ssa.Function   // LevelRange.Enable
+	Worker         *ssa.Function   // async worker closure
+	WorkerOwner    *types.Named    // the async logger type
+	BufField       *types.Var      // channel field the worker receives from
+	WorkerDoneByWG bool            // the worker is started with (*sync.WaitGroup).Go: returning is its completion signal
+	Retention      *ssa.Function   // function containing os.Remove*
+	Rotation       *ssa.Function   // rotation step of the rolling appender
+	HotPath        map[*ssa.Function]bool
 }
 
 func (c *Ctx) roles(r *Report) *Roles {
@@ -119,15 +120,12 @@ func (c *Ctx) roles(r *Report) *Roles {
 			continue
 		}
 		eachInstr(start, func(in ssa.Instruction) {
-			g, ok := in.(*ssa.Go)
+			fn, ok := goStart(in)
 			if !ok {
 				return
 			}
-			var fn *ssa.Function
-			if mc, ok := g.Call.Value.(*ssa.MakeClosure); ok {
-				fn = mc.Fn.(*ssa.Function)
-			} else if s := g.Call.StaticCallee(); s != nil && c.inModule(s) && len(s.Blocks) > 0 {
-				fn = s // `go c.run()`: the worker is a method or function of its own
+			if fn != nil && (!c.inModule(fn) || len(fn.Blocks) == 0) {
+				fn = nil
 			}
 			if fn == nil {
 				return
@@ -136,6 +134,8 @@ func (c *Ctx) roles(r *Report) *Roles {
 				ro.Worker = fn
 				ro.WorkerOwner = nt
 				ro.BufField = fv
+				_, viaCall := in.(*ssa.Call)
+				ro.WorkerDoneByWG = viaCall
 			}
 		})
 	}
@@ -257,7 +257,7 @@ func recvChanField(fn *ssa.Function) *types.Var {
 			case ssa.CallInstruction:
 				// the receive may sit in an unexported helper of the worker (`go c.run()` → c.drain())
 				if cal := x.Common().StaticCallee(); cal != nil && cal.Pkg == f.Pkg && cal.Object() != nil && !cal.Object().Exported() {
-					if _, isGo := in.(*ssa.Go); !isGo {
+					if !isGoStart(in) {
 						visit(cal, d+1)
 					}
 				}
@@ -335,6 +335,55 @@ func chanFieldOfD(v ssa.Value, d int) *types.Var {
 		return out
 	case *ssa.ChangeType:
 		return chanFieldOfD(x.X, d+1)
+	case *ssa.MakeChan:
+		// a channel made into a local and then published in a field (`buf := make(chan …); c.buf = buf`)
+		return fieldReceiving(x, 0)
+	case *ssa.Parameter:
+		// a channel handed to the function as an argument (`go func(buf <-chan T) { … }(buf)`)
+		fn := x.Parent()
+		idx := -1
+		for i, p := range fn.Params {
+			if p == x {
+				idx = i
+			}
+		}
+		if idx < 0 {
+			return nil
+		}
+		var out *types.Var
+		sites := 0
+		visit := func(in ssa.Instruction) {
+			ci, ok := in.(ssa.CallInstruction)
+			if !ok {
+				return
+			}
+			com := ci.Common()
+			var callee *ssa.Function
+			switch v := com.Value.(type) {
+			case *ssa.Function:
+				callee = v
+			case *ssa.MakeClosure:
+				callee, _ = v.Fn.(*ssa.Function)
+			}
+			if callee != fn || idx >= len(com.Args) {
+				return
+			}
+			sites++
+			if fv := chanFieldOfD(com.Args[idx], d+1); fv != nil {
+				out = fv
+			}
+		}
+		if fn.Parent() != nil {
+			eachInstr(fn.Parent(), visit)
+		}
+		if sites == 0 && fn.Pkg != nil {
+			for _, m := range fn.Pkg.Members {
+				if g, ok := m.(*ssa.Function); ok {
+					eachInstr(g, visit)
+				}
+			}
+		}
+		return out
 	}
 	return nil
 }
@@ -447,4 +496,45 @@ func isTagPtr(t types.Type) bool {
 func isLevelType(t types.Type) bool {
 	n, ok := t.(*types.Named)
 	return ok && n.Obj().Name() == "Level" && n.Obj().Pkg() != nil && n.Obj().Pkg().Path() == logPath
+}
+
+// fieldReceiving: the module's channel field that value v is stored into, directly or through a local variable.
+func fieldReceiving(v ssa.Value, d int) *types.Var {
+	if d > 4 {
+		return nil
+	}
+	refs := v.Referrers()
+	if refs == nil {
+		return nil
+	}
+	for _, rr := range *refs {
+		switch x := rr.(type) {
+		case *ssa.Store:
+			if x.Val != v {
+				continue
+			}
+			switch a := x.Addr.(type) {
+			case *ssa.FieldAddr:
+				f := fieldOfAddr(a)
+				if _, isChan := f.Type().Underlying().(*types.Chan); isChan && f.Pkg() != nil && strings.HasPrefix(f.Pkg().Path(), logPath) {
+					return f
+				}
+			case *ssa.Alloc:
+				if ar := a.Referrers(); ar != nil {
+					for _, u := range *ar {
+						if ld, ok := u.(*ssa.UnOp); ok && ld.Op == token.MUL {
+							if f := fieldReceiving(ld, d+1); f != nil {
+								return f
+							}
+						}
+					}
+				}
+			}
+		case *ssa.ChangeType:
+			if f := fieldReceiving(x, d+1); f != nil {
+				return f
+			}
+		}
+	}
+	return nil
 }
